@@ -249,6 +249,14 @@ theorem addAuth_minted (s : ZSt) (sender : Id) (a : Option AddIn) (s' : ZSt) (h 
     | (simp only [Except.ok.injEq] at h; subst h; rfl)
     | (exact absurd h (by simp))
 
+theorem updCfg_minted (s : ZSt) (sender : Id) (u : Option (List Upd)) (s' : ZSt) (h : updCfg s sender u = .ok s') :
+    s'.minted = s.minted := by
+  unfold updCfg at h
+  repeat' split at h
+  all_goals first
+    | (simp only [Except.ok.injEq] at h; subst h; rfl)
+    | (exact absurd h (by simp))
+
 theorem delAuth_minted (s : ZSt) (sender : Id) (k : Option Nat) (s' : ZSt) (h : delAuth s sender k = .ok s') :
     s'.minted = s.minted := by
   unfold delAuth at h
@@ -292,6 +300,16 @@ theorem step_minted (strict feeOn : Bool) (s : ZSt) (op : Op) :
     cases hm : delAuth s c.sender x with
     | error e => simp [hm] at hr
     | ok o => simp only [hm, Option.some.injEq, Prod.mk.injEq] at hr; rw [← hr.1]; exact delAuth_minted s c.sender x o hm
+  | updCfg c x =>
+    left
+    refine ⟨rfl, ?_⟩
+    show (updCfgStep feeOn s c x).1.minted = _
+    unfold updCfgStep
+    apply settleCall_field (·.minted) (fun _ _ => rfl)
+    intro s' q hr
+    cases hm : updCfg s c.sender x with
+    | error e => simp [hm] at hr
+    | ok o => simp only [hm, Option.some.injEq, Prod.mk.injEq] at hr; rw [← hr.1]; exact updCfg_minted s c.sender x o hm
   | mint c p h pick =>
     by_cases hs : (mintStep strict feeOn s c p h pick).2 = .success
     · right
